@@ -42,6 +42,15 @@ NEEDED = {
  'C12-5': 'purge matrix over {no flag, ALLOWED only, ALLOWED+COMPLETE}',
  'C12-6': 'withdraw-all inside a deleverage bracket against the daily limit',
  'C13-5': '(caught by the sibling check C08: cooperating foreign-group cell)',
+ # round 3
+ 'C01-9': 'roots tolerate construction failures: the changed program panicked while a root was being built (machinery exit 2 before); the remaining roots are explored and the violation found there is the verdict',
+ 'C03-7': 'close-balance judged by the no-free-value oracle (dust bound 0.0001) in all three C03 models',
+ 'C03-9': 'root RZ: the transfer fee is abolished at the next epoch (caught by C01; the user gains nothing, the vault loses)',
+ 'C05-8': 'liquidatee with two debt banks whose e-mode tables disagree, in both address orders',
+ 'C05-9': 'banks untouched for 180 days under heavy borrowing: eligibility judged at the share values the liquidation brings up to date',
+ 'C07-7': 'remaining collateral in a bank whose initial-margin value cap is exceeded thousands of times',
+ 'C08-7': '(caught by the sibling check C10: two start instructions in one transaction)',
+ 'C08-8': "C12 'nobody' cells: the permissionless staked-settings propagation aimed at ordinary banks",
  'C19-4': 'fee wallet rotated by the global fee admin, group cache stale / propagated',
  'C19-5': 'two-step draw-down: re-point the fee destination (12 signers x own / foreign group slot), then withdraw permissionlessly (C08 caught it as it stood)',
  'C19-6': 'funding sweep with Token-2022 reward mints that charge a transfer fee',
@@ -98,7 +107,7 @@ def table_seeds():
             need = '(check written afterwards)'
         if sid in NEEDED:
             missed += 1
-        rnd = '2' if os.path.exists(f'{d}/round') else '1'
+        rnd = open(f'{d}/round').read().strip().split()[-1] if os.path.exists(f'{d}/round') else '1'
         rows.append(f"| {sid} | {rnd} | {title} | {f} | {caught} | {need} |")
     rows.append('')
     rows.append(f"{missed} of the {len(rows) - 3} seeded changes needed a strengthening of an existing check; the rest were caught as the check stood or by a check written afterwards.")
